@@ -25,7 +25,6 @@ import (
 	"math/rand"
 	"os"
 	"path/filepath"
-	"sort"
 	"strings"
 	"sync"
 	"testing"
@@ -303,7 +302,110 @@ func setArgs(s *core.BuildState, a args) {
 // ---------------------------------------------------------------------------------------------
 // Streams.
 
-func report(r *lib.Run, idx int, site string, t tgt, a args, want refResult, got bool) {
+// evalSite asks the real code at one in-process site.
+func evalSite(site string, t tgt, a args) bool {
+	bt := makeTarget(t)
+	if site == "target-should-include" {
+		return bt.ShouldInclude(a.Include, labelExcludes(a))
+	}
+	state := getState()
+	defer putState(state)
+	setArgs(state, a)
+	return state.ShouldInclude(bt)
+}
+
+func disagrees(site string, t tgt, a args) bool {
+	w := refSelected(t, a, site != "target-should-include")
+	return w.Decided && w.Selected != evalSite(site, t, a)
+}
+
+// shrink greedily drops target labels, the test flag, whole groups and single labels inside groups
+// while the disagreement persists, so that the witness is minimal and its key stable.
+func shrink(site string, t tgt, a args) (tgt, args) {
+	cp := func(l []string) []string { return append([]string{}, l...) }
+	for changed := true; changed; {
+		changed = false
+		type cand struct {
+			t tgt
+			a args
+		}
+		var cands []cand
+		for i := range a.Include {
+			c := args{append(cp(a.Include[:i]), a.Include[i+1:]...), cp(a.Exclude)}
+			cands = append(cands, cand{t, c})
+		}
+		for i := range a.Exclude {
+			c := args{cp(a.Include), append(cp(a.Exclude[:i]), a.Exclude[i+1:]...)}
+			cands = append(cands, cand{t, c})
+		}
+		dropIn := func(list []string, set func(l []string) args) {
+			for i, g := range list {
+				if isPattern(g) {
+					continue
+				}
+				parts := strings.Split(g, ",")
+				if len(parts) < 2 {
+					continue
+				}
+				for j := range parts {
+					np := append(cp(parts[:j]), parts[j+1:]...)
+					nl := cp(list)
+					nl[i] = strings.Join(np, ",")
+					cands = append(cands, cand{t, set(nl)})
+				}
+			}
+		}
+		dropIn(a.Include, func(l []string) args { return args{l, cp(a.Exclude)} })
+		dropIn(a.Exclude, func(l []string) args { return args{cp(a.Include), l} })
+		// a trailing-* argument is replaced by a plain label when the disagreement does not need it
+		unstar := func(list []string, set func(l []string) args) {
+			for i, g := range list {
+				if isPattern(g) {
+					continue
+				}
+				parts := strings.Split(g, ",")
+				for j, p := range parts {
+					if !strings.HasSuffix(p, "*") {
+						continue
+					}
+					for _, repl := range append([]string{strings.TrimSuffix(p, "*")}, t.Labels...) {
+						if repl == "" {
+							continue
+						}
+						np := cp(parts)
+						np[j] = repl
+						nl := cp(list)
+						nl[i] = strings.Join(np, ",")
+						cands = append(cands, cand{t, set(nl)})
+					}
+				}
+			}
+		}
+		unstar(a.Include, func(l []string) args { return args{l, cp(a.Exclude)} })
+		unstar(a.Exclude, func(l []string) args { return args{cp(a.Include), l} })
+		for i := range t.Labels {
+			nt := t
+			nt.Labels = append(cp(t.Labels[:i]), t.Labels[i+1:]...)
+			cands = append(cands, cand{nt, a})
+		}
+		if t.Test {
+			nt := t
+			nt.Test = false
+			cands = append(cands, cand{nt, a})
+		}
+		for _, c := range cands {
+			if disagrees(site, c.t, c.a) {
+				t, a, changed = c.t, c.a, true
+				break
+			}
+		}
+	}
+	return t, a
+}
+
+const shrinksPerBatch = 3
+
+func report(r *lib.Run, idx int, site string, t tgt, a args, want refResult, got bool, budget *int) {
 	if !want.Decided {
 		r.Obs("undecided_implicit_test_star", 1)
 		return
@@ -311,21 +413,40 @@ func report(r *lib.Run, idx int, site string, t tgt, a args, want refResult, got
 	if want.Selected == got {
 		return
 	}
-	dir := "dropped"
-	if got {
-		dir = "selected"
+	key := site + "/" + wrongly(got) + "/" + want.Why
+	if site == "target-should-include" || site == "state-should-include" {
+		if *budget <= 0 {
+			r.Obs("disagreeing_cases_not_minimised", 1)
+			return
+		}
+		*budget--
+		mt, ma := shrink(site, t, a)
+		if disagrees(site, mt, ma) {
+			t, a = mt, ma
+			want = refSelected(t, a, site != "target-should-include")
+			got = !want.Selected
+		}
+		key = site + "/" + wrongly(got) + "/" + want.Why + "/" + shape(t, a)
 	}
-	r.Violation(site+"/wrongly-"+dir+"/"+want.Why+"/"+shape(t, a),
+	r.Violation(key,
 		fmt.Sprintf("%s: target %s labels %v test=%v with --include %q --exclude %q: Please selects=%v, reference %v (%s)", site, t, t.Labels, t.Test, a.Include, a.Exclude, got, want.Selected, want.Why),
 		map[string]any{"site": site, "target": t, "args": a, "please_selects": got, "reference_selects": want.Selected, "why": want.Why}, idx)
 }
 
+func wrongly(got bool) string {
+	if got {
+		return "wrongly-selected"
+	}
+	return "wrongly-dropped"
+}
+
 func targetStream(r *lib.Run) {
-	batches := r.Pick(100, 4000)
+	batches := r.Pick(100, 3000)
 	const per = 500
 	r.ForEach("targets", batches, 8, func(i int, rng *rand.Rand) {
 		state := getState()
 		defer putState(state)
+		budget := shrinksPerBatch
 		for k := 0; k < per; k++ {
 			t := genTarget(rng, pkgPool[rng.Intn(len(pkgPool))], namePool[rng.Intn(len(namePool))])
 			a := genArgs(rng, t, true)
@@ -334,12 +455,12 @@ func targetStream(r *lib.Run) {
 			// level 1: BuildTarget.ShouldInclude with the label arguments only
 			noPat := args{Include: a.Include, Exclude: labelExcludes(a)}
 			w1 := refSelected(t, noPat, false)
-			report(r, i, "target-should-include", t, noPat, w1, bt.ShouldInclude(noPat.Include, noPat.Exclude))
+			report(r, i, "target-should-include", t, noPat, w1, bt.ShouldInclude(noPat.Include, noPat.Exclude), &budget)
 
 			// level 2: BuildState with build-pattern excludes
 			w2 := refSelected(t, a, true)
 			setArgs(state, a)
-			report(r, i, "state-should-include", t, a, w2, state.ShouldInclude(bt))
+			report(r, i, "state-should-include", t, a, w2, state.ShouldInclude(bt), &budget)
 
 			nontrivial := len(a.Include)+len(a.Exclude) > 0 && len(t.Labels) > 0
 			r.Case(lib.JSON(t)+lib.JSON(a), nontrivial)
@@ -391,7 +512,7 @@ func expandStream(r *lib.Run) {
 			if !inPat {
 				w = refResult{Selected: false, Decided: true, Why: "outside-" + patKind(pat)}
 			}
-			report(r, i, "expand-"+patKind(pat), t, a, w, got[t.String()])
+			report(r, i, "expand-"+patKind(pat), t, a, w, got[t.String()], nil)
 			delete(got, t.String())
 		}
 		for extra := range got {
@@ -467,7 +588,7 @@ func e2eStream(r *lib.Run) {
 					if got[t.String()] {
 						dir = "selected"
 					}
-					r.Violation("e2e-"+site+"/wrongly-"+dir+"/"+w.Why+"/"+shape(t, a),
+					r.Violation("e2e-"+site+"/wrongly-"+dir+"/"+w.Why,
 						fmt.Sprintf("plz %s: target %s labels %v test=%v: Please selects=%v, reference %v (%s)", strings.Join(cmd, " "), t, t.Labels, t.Test, got[t.String()], w.Selected, w.Why),
 						map[string]any{"cmd": cmd, "targets": ts, "target": t, "args": a, "stdout": lib.Tail(res.Stdout, 2000), "stderr": lib.Tail(res.Stderr, 1000)}, i)
 				}
@@ -538,5 +659,4 @@ func TestC36(t *testing.T) {
 	}
 	r.Extra("stream_wall_s", walls) // informational only
 	r.RequireObserved("target_arg_cases", "ref_selected", "ref_dropped", "expansions", "e2e_queries", "e2e_builds")
-	_ = sort.Strings
 }
